@@ -787,10 +787,16 @@ package graphql
 //@   trusted
 //@   assigns nothing
 
+// (postconditions, was a frame) the directive of that name among the schema's directives: what is returned carries the
+// name asked for, and "none" is only answered after every directive was looked at
 //@ func Schema.Directive
 //@   props C02
 //@   nosafety
 //@   assigns nothing
+//@   loop 1 over lastresult("Directives")
+//@   at call Directives: assert arg0 == gq
+//@   ensures result != nil ==> result.Name == name
+//@   at return: assert result == nil ==> exitedloop(1)
 
 //@ func Schema.QueryType
 //@   props C02 C01 C13
@@ -1401,10 +1407,13 @@ package graphql
 //@   at call planMergedSelectionsForType: assert arg2 == fp.fieldASTs && arg3 == fp.astPredicates
 //@   ensures old(len(fp.fieldASTs) > 0 && p.expanding[fp.fieldASTs[0]]) && typeis(unwrapNamedType_0(fp.returnType), "*graphql.Object") ==> fp.plannedOnDemand && calls("planMergedSelectionsForType") == 0
 //@ func unwrapNamedType
-//@   props C02
+//@   props C02 C01
 //@   nosafety
 //@   functional
 //@   assigns nothing
+//@   ensures !typeis(result, "*graphql.NonNull") && !typeis(result, "*graphql.List")
+//@   ensures !typeis(t, "*graphql.NonNull") && !typeis(t, "*graphql.List") ==> result == t
+//@   loop 1 invariant !typeis(old(t), "*graphql.NonNull") && !typeis(old(t), "*graphql.List") ==> t == old(t)
 
 //@ func Plan.planMergedSelectionsForType
 //@   props C19 C01
@@ -2456,6 +2465,7 @@ package graphql
 //@   props C02
 //@   nosafety
 //@   assigns nothing
+//@   ensures result == gq.directives
 //@ func KnownDirectivesRule$1
 //@   props C02 C18
 //@   nosafety
